@@ -78,6 +78,38 @@ func c09(x *runCtx) {
 			}
 		}
 	}
+	// the validity table of the library against the specification's rule (Lean: Fdo.Kex.specValidEc), row by
+	// row for ECDSA device keys; rows that differ are concrete failing inputs, and their end-to-end
+	// reachable tuples (device and owner keys of one family) are always run
+	c09Spec = map[string]bool{}
+	ownerKinds := []struct{ name, pool string }{{"P256", "p256"}, {"P384", "p384"}, {"RSA2048", "rsa2048"}, {"RSA3072", "rsa3072"}}
+	var forced []c09Tuple
+	for _, s := range allSuites {
+		for _, ok := range ownerKinds {
+			ans, err := x.m.Ask(fmt.Sprintf("kex.specvalid %s %s", s, ok.name))
+			if err != nil {
+				fatal("model: %v", err)
+			}
+			spec := ans == "true"
+			c09Spec[string(s)+"/"+ok.pool] = spec
+			for _, dev := range []string{"p256", "p384"} {
+				lib := s.Valid(lab.Key(dev+"/dev1").Public(), lab.Key(ok.pool+"/own1").Public())
+				row := fmt.Sprintf("suite=%s device=%s owner=%s", s, dev, ok.name)
+				x.r.Case("validity-row "+row, true, "validity-row")
+				if lib != spec {
+					x.r.Violate(rep.Violation{Kind: "correspondence", Check: "C09.validity-table", Signature: "C09.validity-table:" + row,
+						Input: row, Impl: fmt.Sprint(lib), Model: fmt.Sprint(spec), PropertyFails: true})
+					if dev == ok.pool {
+						for _, t := range all {
+							if t.suite == s && t.k.PoolKey == dev && t.cipher == kex.A128GcmCipher && !t.reuse && t.bypass {
+								forced = append(forced, t)
+							}
+						}
+					}
+				}
+			}
+		}
+	}
 	tuples := all
 	if !x.thorough() {
 		// covering sample: for every kind×encoding every suite once (random cipher/reuse/path), plus every cipher
@@ -105,6 +137,9 @@ func c09(x *runCtx) {
 				}
 			}
 		}
+	}
+	if !x.thorough() {
+		tuples = append(tuples, forced...)
 	}
 	x.r.Exhaustive = x.thorough()
 	x.r.Extra["tuples_in_product"] = len(all)
@@ -159,10 +194,19 @@ func c09(x *runCtx) {
 }
 
 // expectedValid: what the library's own tables say (tied to the specification in Lean).
+// c09Spec: suite/ownerFamily → valid by the specification's rule (ECDSA device keys), from the Lean model.
+var c09Spec map[string]bool
+
+// c09Expected: the specification's rule for ECDSA device keys; for RSA device keys (outside the
+// specification's table) what the library's table says (Lean: constantly true).
 func c09Expected(t c09Tuple) bool {
 	dev := lab.Key(t.k.PoolKey + "/dev1").Public()
 	own := lab.Key(t.k.PoolKey + "/own1").Public()
-	return t.suite.Valid(dev, own) && kex.Available(t.suite, t.cipher)
+	valid := t.suite.Valid(dev, own)
+	if t.k.RSABits == 0 {
+		valid = c09Spec[string(t.suite)+"/"+t.k.PoolKey]
+	}
+	return valid && kex.Available(t.suite, t.cipher)
 }
 
 type c09Tap struct {
